@@ -19,8 +19,8 @@ RULE = ("pairs of real wormholes through the real server (bridging server when a
         "exchanged PAKE messages (or, for never-met, both closed Lonely); distinct = (class, entry "
         "mode, codes, appids).")
 ASSUMPTIONS = ["codes <= 60 chars, <= 6 words; BMP plus a few astral characters"]
-FLOORS = {"quick": {"class_whitespace": 15, "match_cases": 100, "mismatch_cases": 150, "pake_before_code": 10, "derive_checks": 1000, "bystander_pairs": 100, "derive_in_key_notification": 80, "derive_after_close": 500, "mailbox_connections_lost": 100},
-          "thorough": {"class_whitespace": 300, "match_cases": 4000, "mismatch_cases": 6000, "pake_before_code": 400, "derive_checks": 40000, "bystander_pairs": 4000, "derive_in_key_notification": 3000, "derive_after_close": 20000, "mailbox_connections_lost": 4000}}
+FLOORS = {"quick": {"class_whitespace": 15, "bystander_pairs_with_mismatching_codes": 10, "match_cases": 100, "mismatch_cases": 150, "pake_before_code": 10, "derive_checks": 1000, "bystander_pairs": 100, "derive_in_key_notification": 80, "derive_after_close": 500, "mailbox_connections_lost": 100},
+          "thorough": {"class_whitespace": 300, "bystander_pairs_with_mismatching_codes": 300, "match_cases": 4000, "mismatch_cases": 6000, "pake_before_code": 400, "derive_checks": 40000, "bystander_pairs": 4000, "derive_in_key_notification": 3000, "derive_after_close": 20000, "mailbox_connections_lost": 4000}}
 CLASSES = ["same", "same", "nfc", "nfc", "onechar", "case", "extraword", "missingword", "compat",
            "nameplate", "appid", "appid+same-nfc", "nameplate-spelling", "whitespace"]
 WORDS = ["café", "naïve", "purple", "sausages", "한글", "éclair", "ångström", "ǆemal",
@@ -138,12 +138,18 @@ def run_case(spec):
     # a second, unrelated pair living in the same process (same reactor, same server): its session must be
     # unaffected by, and must not affect, the pair under test
     by = None
+    by_mismatch = False
     if spec.get("bystander", (spec["seed"] % 5) < 2):
         by_np = str(int(code_a.split("-")[0]) + 1000)
         cfg2 = {"a_code": "set", "b_code": "set", "code": by_np + "-by-stander", "appid_a": appid_a, "appid_b": appid_a,
                 "api_a": "deferred", "api_b": rng.choice(["deferred", "delegate"]),
                 "versions_a": {"v": "A2"}, "versions_b": {"v": "B2"},
                 "plan_a": make_plan(rng, "A2", rng.randint(1, 3), 50), "plan_b": make_plan(rng, "B2", rng.randint(1, 3), 50)}
+        # one bystander pair in six has codes that do NOT match: two failing / one failing and one succeeding key
+        # exchange side by side must not leak into each other either
+        by_mismatch = spec["seed"] % 15 == 0
+        if by_mismatch:
+            cfg2["code_b"] = by_np + "-by-standex"
         by = TwoParty(world, cfg2)
         by.a.name, by.b.name = "A2", "B2"
     nokey = []
@@ -197,6 +203,9 @@ def run_case(spec):
         sch.hook = hook
 
     def by_done():
+        if by is not None and by_mismatch:
+            return all(any(k.endswith("-err") or k == "closed" for k in app.kinds()) or "scared" in [i for (_, _, i) in app.binputs]
+                       for app in (by.a, by.b))
         return by is None or (by.all_delivered() and "versions" in by.a.kinds() and "versions" in by.b.kinds())
 
     def settled():
@@ -283,7 +292,12 @@ def run_case(spec):
     if by is not None:
         bw = {"A2": events_view(by.a), "B2": events_view(by.b), "A2_boss": by.a.binputs[:30], "B2_boss": by.b.binputs[:30],
               "pair_under_test": {"class": kind, "A": drv.a.kinds(), "B": drv.b.kinds()}}
-        if not by_done() or by.a.first("verifier") != by.b.first("verifier") or by.a.first("key") != by.b.first("key"):
+        if by_mismatch:
+            got_ = [k for app in (by.a, by.b) for k in app.kinds() if k in ("verifier", "versions", "msg")]
+            if got_ or not by_done():
+                viol.append({"key": "C01/bystander-mismatch-not-refused", "msg": "a second pair with DIFFERENT codes in the same process: A2=%s B2=%s" % (by.a.kinds(), by.b.kinds()),
+                             "witness": bw})
+        elif not by_done() or by.a.first("verifier") != by.b.first("verifier") or by.a.first("key") != by.b.first("key"):
             viol.append({"key": "C01/bystander-session-disturbed", "msg": "a second pair with equal codes in the same process: A2=%s B2=%s" % (by.a.kinds(), by.b.kinds()),
                          "witness": bw})
         elif ka is not None and by.a.first("key") == ka:
@@ -322,7 +336,10 @@ def run_case(spec):
     world.finish()
     if by is not None:
         bv = (by.a.close_results[0] if by.a.closed else "never-closed", by.b.close_results[0] if by.b.closed else "never-closed")
-        if bv != ("happy", "happy") and not any(v["key"].startswith("C01/bystander") for v in viol):
+        if by_mismatch:
+            if bv != ("WrongPasswordError", "WrongPasswordError") and not any(v["key"].startswith("C01/bystander") for v in viol):
+                viol.append({"key": "C01/bystander-mismatch-verdict/%s-%s" % bv, "msg": "mismatching bystander verdicts %s" % (bv,), "witness": bw})
+        elif bv != ("happy", "happy") and not any(v["key"].startswith("C01/bystander") for v in viol):
             viol.append({"key": "C01/bystander-session-disturbed", "msg": "bystander verdicts %s" % (bv,), "witness": bw})
     va = drv.a.close_results[0] if drv.a.closed else "never-closed"
     vb = drv.b.close_results[0] if drv.b.closed else "never-closed"
@@ -356,7 +373,7 @@ def run_case(spec):
     return {"violations": viol, "nontrivial": nontrivial,
             "counters": {"match_cases": int(expect_match), "mismatch_cases": int(not expect_match and met),
                          "never_met_cases": int(not met), "pake_before_code": s01, "derive_checks": derive_checks, "derive_repeated_purpose": repeated[0], "derive_in_key_notification": in_callback[0], "derive_after_close": after_close_n,
-                         "class_" + kind: 1, "bystander_pairs": int(by is not None), "dilated_cases": int(dilated),
+                         "class_" + kind: 1, "bystander_pairs": int(by is not None), "bystander_pairs_with_mismatching_codes": int(by is not None and by_mismatch), "dilated_cases": int(dilated),
                          "flaky_link_cases": int(flaky), "flaky_lonely_because_peer_version_never_arrived": lonely_ok, "mailbox_connections_lost": drv.drops_done},
             "sample": {"spec": spec, "code_a": code_a, "code_b": code_b, "appid_a": appid_a, "appid_b": appid_b,
                        "expect_match": expect_match, "b_mode": b_mode, "late_words": late_words,
